@@ -25,6 +25,9 @@ struct WideRun {
   int hits[3] = {0, 0, 0};
   long returned = 0, copies = 0;
   bool satisfied = false;
+  int ident = 0;                      // > 0: a RETURN(_k) / RETURN(&_k) case, only identity is checked
+  const void* ret_addr = nullptr;     // what the caller received
+  const void* want_ret = nullptr;     // the caller's own k-th argument
 };
 
 inline void wide_store(WideRun&, int, int) {}
